@@ -1018,6 +1018,281 @@ fn g_meta(rng: &mut Rng) -> (String, RuleA) {
     (format!("M:{}", c), r)
 }
 
+
+// ------------------------------------------------------------------ RF family: files rendered by a port of Lean's `renderFile`
+// (lean/RreModel/C04/File.lean: `renderCase`).  The stream token is `RF:<layout word>`: one decimal digit per white-space
+// slot, drawn in a fixed traversal order; the driver re-renders the case from (layout word, abstract rules) with the Lean
+// renderer — the one the whole-file theorems (Theorems3.lean) are about — and compares with the text carried by the case
+// (oracle tag `render-agrees` / failure `render-differs`).
+struct Sup {
+    d: Vec<u8>,
+    i: usize,
+}
+impl Sup {
+    fn raw(&mut self) -> Option<u8> {
+        if self.i < self.d.len() {
+            self.i += 1;
+            Some(self.d[self.i - 1])
+        } else {
+            None
+        }
+    }
+}
+const RF_PALETTE: [&str; 9] = [" ", "  ", "\t", "\n", "\n    ", "\r\n  ", " /*/ note } */ ", " // c { then\n", "\n// rule x {\n  "];
+/// `popW`
+fn rf_w(s: &mut Sup) -> String {
+    match s.raw() {
+        None => " ".into(),
+        Some(i) => RF_PALETTE[(i % 9) as usize].into(),
+    }
+}
+/// `popO`
+fn rf_o(s: &mut Sup) -> String {
+    match s.raw() {
+        None => String::new(),
+        Some(i) => {
+            if i % 10 == 9 {
+                String::new()
+            } else {
+                RF_PALETTE[(i % 9) as usize].into()
+            }
+        }
+    }
+}
+/// `renderAtom`
+fn rf_atom(a: &Atom) -> String {
+    match a {
+        Atom::Cmp(f, o, v) => format!("{} {} {}", f, o, r_lit_plain(v)),
+        Atom::Arith(l, o, v) => format!("{} {} {}", l, o, r_lit_plain(v)),
+        Atom::Call(f, args, o, v) => format!("{}({}) {} {}", f, args.join(", "), o, r_lit_plain(v)),
+        Atom::Test(f, args) => format!("test({}({}))", f, args.join(", ")),
+        Atom::MCount(f, o, v) => format!("{} count {} {}", f, o, r_lit_plain(v)),
+        Atom::MEmpty(f) => format!("{} empty", f),
+        Atom::MNotEmpty(f) => format!("{} not_empty", f),
+        Atom::MCollect(f, v) => format!("{} {}", f, v),
+        Atom::MFirst(..) | Atom::MLast(..) => unreachable!("not in the RF family"),
+    }
+}
+/// `renderStmt`
+fn rf_stmt(s: &Stmt) -> String {
+    match s {
+        Stmt::Set(f, v) => format!("{} = {}", f, r_lit_plain(v)),
+        Stmt::Append(f, v) => format!("{} += {}", f, r_lit_plain(v)),
+        Stmt::Call(f, args) => format!("{}({})", f, args.iter().map(r_lit_plain).collect::<Vec<_>>().join(", ")),
+        Stmt::Retract(o) => format!("Retract(${})", o),
+        Stmt::Log(v) => format!("Log({})", r_lit_plain(v)),
+        Stmt::Activate(g) => format!("ActivateAgendaGroup(\"{}\")", g),
+        Stmt::Complete(w) => format!("CompleteWorkflow(\"{}\")", w),
+        Stmt::Schedule(d, r) => format!("ScheduleRule({}, \"{}\")", d, r),
+        Stmt::WfData(..) | Stmt::Method(..) => unreachable!("not in the RF family"),
+    }
+}
+/// `layCond`
+fn rf_cond(c: &Cond, level: u8, s: &mut Sup) -> String {
+    let own = match c {
+        Cond::Or(..) => 0,
+        Cond::And(..) => 1,
+        _ => 2,
+    };
+    let core = match c {
+        Cond::Atom(a) => rf_atom(a),
+        Cond::Or(a, b) => {
+            let l = rf_cond(a, 0, s);
+            let r = rf_cond(b, 1, s);
+            let wl = rf_w(s);
+            let wr = rf_w(s);
+            format!("{}{}||{}{}", l, wl, wr, r)
+        }
+        Cond::And(a, b) => {
+            let l = rf_cond(a, 1, s);
+            let r = rf_cond(b, 2, s);
+            let wl = rf_w(s);
+            let wr = rf_w(s);
+            format!("{}{}&&{}{}", l, wl, wr, r)
+        }
+        Cond::Not(a) => {
+            let t = rf_cond(a, 2, s);
+            let w = rf_o(s);
+            format!("!{}{}", w, t)
+        }
+        Cond::Ex(a) => {
+            let t = rf_cond(a, 0, s);
+            let wl = rf_o(s);
+            let wr = rf_o(s);
+            format!("exists({}{}{})", wl, t, wr)
+        }
+        Cond::Fa(a) => {
+            let t = rf_cond(a, 0, s);
+            let wl = rf_o(s);
+            let wr = rf_o(s);
+            format!("forall({}{}{})", wl, t, wr)
+        }
+    };
+    if own < level {
+        let wl = rf_o(s);
+        let wr = rf_o(s);
+        format!("({}{}{})", wl, core, wr)
+    } else {
+        core
+    }
+}
+/// `isBareName`
+fn rf_is_bare(n: &str) -> bool {
+    let mut cs = n.chars();
+    match cs.next() {
+        Some(c) if c.is_ascii_alphabetic() || c == '_' => n.chars().all(|c| c.is_ascii_alphanumeric() || c == '_'),
+        _ => false,
+    }
+}
+/// `toSrc`: (rule text, gap after it)
+fn rf_rule(r: &RuleA, s: &mut Sup) -> (String, String) {
+    let w0 = rf_w(s);
+    let w1 = rf_w(s);
+    // `attrsOf`: base order, then `pickAttrs`, then the two slots of every attribute
+    let mut base: Vec<(&str, u8, String)> = Vec::new(); // (keyword, 0 = flag / 1 = quoted / 2 = number, value)
+    if let Some(v) = r.salience {
+        if v != 0 {
+            base.push(("salience", 2, v.to_string()));
+        }
+    }
+    if r.no_loop.is_some() {
+        base.push(("no-loop", 0, String::new()));
+    }
+    if r.lock.is_some() {
+        base.push(("lock-on-active", 0, String::new()));
+    }
+    for (k, v) in [("agenda-group", &r.ag), ("activation-group", &r.actg), ("date-effective", &r.de), ("date-expires", &r.dx)] {
+        if let Some(v) = v {
+            base.push((k, 1, v.clone()));
+        }
+    }
+    let mut ordered = Vec::new();
+    while !base.is_empty() {
+        match s.raw() {
+            None => {
+                ordered.append(&mut base);
+            }
+            Some(d) => {
+                let k = (d as usize) % base.len();
+                ordered.push(base.remove(k));
+            }
+        }
+    }
+    let mut t = format!("rule{}{}{}", w0, if rf_is_bare(&r.name) { r.name.clone() } else { format!("\"{}\"", r.name) }, w1);
+    for (kw, kind, v) in ordered {
+        let a1 = rf_w(s);
+        let a2 = rf_w(s);
+        match kind {
+            0 => t.push_str(&format!("{}{}", kw, a2)),
+            1 => t.push_str(&format!("{}{}\"{}\"{}", kw, a1, v, a2)),
+            _ => t.push_str(&format!("{}{}{}{}", kw, a1, v, a2)),
+        }
+    }
+    let w2 = rf_o(s);
+    let w3 = rf_w(s);
+    let cond = rf_cond(&r.cond, 0, s);
+    let w4 = rf_w(s);
+    let w5 = rf_w(s);
+    t.push_str(&format!("{{{}when{}{}{}then{}", w2, w3, cond, w4, w5));
+    for (i, st) in r.stmts.iter().enumerate() {
+        let a = if i == 0 { String::new() } else { rf_o(s) };
+        let b = rf_o(s);
+        t.push_str(&format!("{}{}{};", a, rf_stmt(st), b));
+    }
+    let w6 = rf_o(s);
+    let gap = rf_w(s);
+    t.push_str(&w6);
+    t.push('}');
+    (t, gap)
+}
+fn rf_fix_cond(c: &mut Cond) {
+    match c {
+        Cond::And(a, b) | Cond::Or(a, b) => {
+            rf_fix_cond(a);
+            rf_fix_cond(b)
+        }
+        Cond::Not(a) | Cond::Ex(a) | Cond::Fa(a) => rf_fix_cond(a),
+        Cond::Atom(a) => {
+            if let Atom::MFirst(f, _) | Atom::MLast(f, _) = a {
+                *a = Atom::MEmpty(f.clone())
+            }
+        }
+    }
+}
+/// `n` files of the RF family: rules from the grammar generator, restricted to the forms `renderAtom` / `renderStmt` cover
+/// (no description, bare flags, no open-finding forms), laid out by a random layout word; strength 0 = blanks only (one line,
+/// no comments: the hypotheses of `parseRules_render`), 1 = any white space, 2 = white space and comments
+fn rf_cases(rng: &mut Rng, n: usize, maxdepth: u64) -> Vec<String> {
+    let mut out = Vec::new();
+    for i in 0..n {
+        let nr = match rng.below(8) {
+            0 => 0,
+            1..=3 => 1,
+            4 | 5 => 2,
+            _ => rng.range(3, 6),
+        } as usize;
+        let mut rules: Vec<RuleA> = (0..nr)
+            .map(|k| {
+                let d = rng.range(1, maxdepth) as u32;
+                g_rule(rng, k, d)
+            })
+            .collect();
+        for r in rules.iter_mut() {
+            r.desc = None;
+            if r.salience == Some(0) {
+                r.salience = None
+            }
+            r.no_loop = r.no_loop.map(|_| false);
+            r.lock = r.lock.map(|_| false);
+            r.quoted = !rf_is_bare(&r.name);
+            rf_fix_cond(&mut r.cond);
+            for st in r.stmts.iter_mut() {
+                if matches!(st, Stmt::WfData(..) | Stmt::Method(..)) {
+                    *st = Stmt::Set(path(rng), Lit::Int(g_int(rng)))
+                }
+            }
+            // a later statement that assigns a field called `then` / `when`: `when_then_regex` is lazy — the FIRST ` then ` ends
+            // the condition, a ` then ` in the statement list is text (the model's `lazyThen`; `ThenFree` is asked of the condition only)
+            if rng.chance(1, 5) {
+                r.stmts.push(Stmt::Set(pk(rng, &["then", "when", "rule"]).to_string(), Lit::Int(g_int(rng))));
+            }
+        }
+        let strength = i % 3;
+        let len = 40 + 60 * nr + rng.below(40) as usize;
+        let digits: Vec<u8> = (0..len)
+            .map(|_| match strength {
+                0 => if rng.chance(1, 4) { 1 } else { 0 },
+                1 => *rng.pick(&[0u8, 0, 1, 2, 3, 4, 5, 9]),
+                _ => rng.below(10) as u8,
+            })
+            .collect();
+        let mut sup = Sup { d: digits.clone(), i: 0 };
+        let mut segs = vec![rf_o(&mut sup)];
+        for r in &rules {
+            let (t, g) = rf_rule(r, &mut sup);
+            segs.push(t);
+            segs.push(g);
+        }
+        let word: String = digits.iter().map(|d| (b'0' + d) as char).collect();
+        out.push(
+            format!(
+                "RF:{} {} {} {}",
+                word,
+                segs.iter().map(|s| hex(s)).collect::<Vec<_>>().join(","),
+                rules.len(),
+                rules.iter().map(a_rule).collect::<Vec<_>>().join(" ")
+            )
+            .trim_end()
+            .to_string(),
+        );
+    }
+    out
+}
+/// shrunk candidates of an RF case are plain `G` cases (dropping a rule changes what the layout word means)
+fn rf_shrink_stream(stream: &str) -> &str {
+    if stream.starts_with("RF:") { "G" } else { stream }
+}
+
 fn gen(rng: &mut Rng, n: usize, tier: &str) -> Vec<String> {
     let mut out = Vec::new();
     // every attribute subset in a shuffled order, plain layout, and salience extremes
@@ -1202,6 +1477,7 @@ fn gen(rng: &mut Rng, n: usize, tier: &str) -> Vec<String> {
         }
     }
     let maxdepth = if tier == "thorough" { 6 } else { 5 };
+    out.extend(rf_cases(rng, n / 10 + 30, maxdepth));
     // the findings stream goes last (check.py reports the first dozen failure groups only)
     let mut meta = Vec::new();
     for i in 0..n {
@@ -1262,7 +1538,7 @@ fn shrink(case: &str) -> Vec<String> {
             s.push(segs[2 * k + 2].to_string());
             a.push(rules[k].join(" "));
         }
-        format!("{} {} {} {}", t[0], s.join(","), ks.len(), a.join(" ")).trim_end().to_string()
+        format!("{} {} {} {}", rf_shrink_stream(t[0]), s.join(","), ks.len(), a.join(" ")).trim_end().to_string()
     };
     for k in 0..n {
         out.push(keep(&vec![k]));
